@@ -47,6 +47,27 @@ func (rc *replyCounter) isFinal(in ssa.Instruction) bool {
 	return true
 }
 
+// replies: how many final replies the instruction emits — a direct writeResponse, or a package helper that replies.
+func (rc *replyCounter) replies(in ssa.Instruction) (int, int) {
+	if rc.isFinal(in) {
+		return 1, 1
+	}
+	switch in.(type) {
+	case *ssa.Go, *ssa.Defer:
+		return 0, 0
+	}
+	if cc := callCommon(in); cc != nil {
+		if g := staticCallee(cc); g != nil && inSmtp(g) && qualFuncName(g) != "(*Conn).writeResponse" && g.Blocks != nil {
+			if qualFuncName(g) == "(*Conn).protocolError" {
+				return 1, 1
+			}
+			r := rc.count(g)
+			return r.Min, r.Max
+		}
+	}
+	return 0, 0
+}
+
 type loopInfo struct {
 	header *ssa.BasicBlock
 	blocks map[*ssa.BasicBlock]bool
@@ -135,7 +156,7 @@ func (rc *replyCounter) count(f *ssa.Function) CountResult {
 		for b := range li.blocks {
 			inRcLoop[b] = li
 			for _, in := range b.Instrs {
-				if rc.isFinal(in) {
+				if _, hi := rc.replies(in); hi != 0 {
 					has = true
 				}
 			}
@@ -290,7 +311,7 @@ func runC04(c *Ctx) {
 			has := false
 			for b := range li.blocks {
 				for _, in := range b.Instrs {
-					if rc.isFinal(in) || (callCommon(in) != nil && staticCallee(callCommon(in)) != nil && inSmtp(staticCallee(callCommon(in))) && s.InstrMay(in)["reply"]) {
+					if _, hi := rc.replies(in); hi != 0 || (callCommon(in) != nil && staticCallee(callCommon(in)) != nil && inSmtp(staticCallee(callCommon(in))) && s.InstrMay(in)["reply"]) {
 						if _, isDefer := in.(*ssa.Defer); !isDefer {
 							has = true
 						}
@@ -306,10 +327,7 @@ func runC04(c *Ctx) {
 				res := CountPathsOpt(f, CountOpts{Start: li.body, NoReturn: true, SkipEdge: rc.skip,
 					ExitEdge: func(from, to *ssa.BasicBlock) bool { return to == li.header },
 					Count: func(in ssa.Instruction) (int, int) {
-						if rc.isFinal(in) {
-							return 1, 1
-						}
-						return 0, 0
+						return rc.replies(in)
 					}})
 				R.Ob(key+" emits no final reply per iteration", c.P.InstrPos(li.header.Instrs[0]), li.body != nil && res.Max == 0, fmt.Sprintf("a loop that does not range over the recipients emits up to %d final replies per iteration", res.Max))
 				continue
@@ -317,8 +335,8 @@ func runC04(c *Ctx) {
 			res := CountPathsOpt(f, CountOpts{Start: li.body, NoReturn: true, SkipEdge: rc.skip,
 				ExitEdge: func(from, to *ssa.BasicBlock) bool { return to == li.header },
 				Count: func(in ssa.Instruction) (int, int) {
-					if rc.isFinal(in) {
-						return 1, 1
+					if lo, hi := rc.replies(in); hi != 0 {
+						return lo, hi
 					}
 					return 0, 0
 				}})
@@ -798,6 +816,21 @@ func ruleVerdictSources(c *Ctx) {
 		d := describe(cc.Args[1])
 		m := regexp.MustCompile(`^dataErrorToStatus\((.*)\)#0$`).FindStringSubmatch(d)
 		ok := m != nil && allowedInner.MatchString(m[1])
+		if m != nil && !ok {
+			// a helper that formats the reply for the error it is given: the sources are what its callers pass
+			if ex, isE := stripConv(cc.Args[1]).(*ssa.Extract); isE {
+				if call, isC := ex.Tuple.(*ssa.Call); isC && len(call.Call.Args) == 1 {
+					if as := c.argsAtCallSites(call.Call.Args[0]); len(as) > 0 {
+						ok = true
+						for _, a := range as {
+							if !allowedInner.MatchString(describe(a)) {
+								ok = false
+							}
+						}
+					}
+				}
+			}
+		}
 		why := "reply code computed from " + d
 		if ok {
 			// enhanced code and text must come from the same call
